@@ -41,6 +41,7 @@ type spec struct {
 	Iface   map[string]string `json:"iface"`
 	Depth   int               `json:"depth"`
 	Track   []string          `json:"track"` // field names whose users are listed (e.g. schedState)
+	Reads   []string          `json:"reads"` // field names whose READS are emitted as "rd:<path>" tokens
 }
 
 type fkey struct{ recv, name string }
@@ -267,6 +268,13 @@ func (w *walker) expr(e ast.Expr, out *[]any) {
 		w.expr(t.X, out)
 	case *ast.SelectorExpr:
 		w.expr(t.X, out)
+		for _, r := range sp.Reads {
+			if t.Sel.Name == r {
+				if p, ok := path(t); ok {
+					*out = append(*out, "rd:"+strings.Join(w.stripVar(p), "."))
+				}
+			}
+		}
 	case *ast.IndexExpr:
 		w.expr(t.X, out)
 		w.expr(t.Index, out)
